@@ -32,6 +32,12 @@
 **   chin     sentinel { prefix ; program }   (two programs one after the other in one try body)
 **   fresh    the program (with sentinel) as the first thing a new Cello Thread does
 **   nosent   the program WITHOUT sentinel in a forked child: exit status and stderr are judged
+**   builtin  (mode=builtin) the library's OWN exception kinds (every `extern var ...Error;` of Cello.h; the list
+**            below is compared with the header at run time): name of each kind == its C identifier; all 16x16
+**            ordered pairs (thrown X, inner filter lists Y, enclosing catch-all): the inner handler runs iff X is Y;
+**            three-level routing: every ordered triple of distinct kinds listed at levels 0/1/2 x every kind thrown;
+**            and, in forked children, the "Uncaught <identifier>" diagnostic of each kind, bare and past every other
+**            kind's filter.
 **   deep     (mode=deep) dynamic nesting through recursion to depth D in {1,2,3,17,100,1000,MAX-2,MAX-1,MAX}
 **            (MAX = EXCEPTION_MAX_DEPTH read from the library's own Exception.c, D = number of try blocks
 **            open at once, no sentinel, so D = MAX is the last level the library documents as legal);
@@ -1146,6 +1152,234 @@ static void deep_all(void) {
   vf_extra("deep_cases_expected_uncaught", "%" PRIu64, deep_uncaught);
 }
 
+/* ---- the library's own exception kinds ---------------------------------------------------------- */
+
+#define BUILTIN_KINDS(X) \
+  X(TypeError) X(ValueError) X(ClassError) X(IndexOutOfBoundsError) X(KeyError) X(OutOfMemoryError) \
+  X(IOError) X(FormatError) X(BusyError) X(ResourceError) X(ProgramAbortedError) X(DivisionByZeroError) \
+  X(IllegalInstructionError) X(ProgramInterruptedError) X(SegmentationError) X(ProgramTerminationError)
+#define BK_COUNT_(n) + 1
+enum { NBK = 0 BUILTIN_KINDS(BK_COUNT_) };
+static const char* BKN[NBK + 1];
+static var BK[NBK + 1];
+static void bk_setup(void) {
+  int i = 0;
+#define BK_FILL_(n) BKN[i] = #n; BK[i] = n; i++;
+  BUILTIN_KINDS(BK_FILL_)
+#undef BK_FILL_
+}
+static int bk_index(var o) { for (int i = 0; i < NBK; i++) if (o == BK[i]) return i; return o == NULL ? -1 : -2; }
+static const char* bk_name(int i) { return i >= 0 && i < NBK ? BKN[i] : i == -1 ? "none" : "some-other-object"; }
+
+/* observations of one builtin program (shared memory: the uncaught family runs in a child) */
+struct bi_obs { int h[4]; int hd[4]; int mark[4]; int body_depth, end_depth, finished; };
+#define BO (*(volatile struct bi_obs*)&SH->deep)     /* reuses the deep-mode area */
+
+static void bi_clear(void) { memset((void*)&SH->deep, 0, sizeof SH->deep); for (int i = 0; i < 4; i++) BO.h[i] = -1; }
+
+/* try { try { throw X } catch (e in Y) { inner } mark } catch (e) { outer } */
+static void bi_pair(var X, var Y) {
+  EXC = current(Exception);
+  try {
+    try {
+      BO.body_depth = (int)len(EXC);
+      throw(X, "builtin kind %$ thrown", X);
+    } catch (e_ in Y) { BO.h[1] = bk_index(e_); BO.hd[1] = (int)len(EXC); }
+    BO.mark[1] = 1;
+  } catch (e_) { BO.h[0] = bk_index(e_); BO.hd[0] = (int)len(EXC); }
+  BO.end_depth = (int)len(EXC);
+  BO.finished = 1;
+}
+
+/* sentinel { L0 lists k0 { L1 lists k1 { L2 lists k2 { throw X } } } }; h[] index: 0 sentinel, 1..3 = levels 0..2 */
+static void bi_route(var X, var k0, var k1, var k2) {
+  EXC = current(Exception);
+  try {
+    try {
+      try {
+        try {
+          BO.body_depth = (int)len(EXC);
+          throw(X, "builtin kind %$ routed", X);
+        } catch (e_ in k2) { BO.h[3] = bk_index(e_); BO.hd[3] = (int)len(EXC); }
+        BO.mark[3] = 1;
+      } catch (e_ in k1) { BO.h[2] = bk_index(e_); BO.hd[2] = (int)len(EXC); }
+      BO.mark[2] = 1;
+    } catch (e_ in k0) { BO.h[1] = bk_index(e_); BO.hd[1] = (int)len(EXC); }
+    BO.mark[1] = 1;
+  } catch (e_) { BO.h[0] = bk_index(e_); BO.hd[0] = (int)len(EXC); }
+  BO.end_depth = (int)len(EXC);
+  BO.finished = 1;
+}
+
+static int bi_x, bi_y;
+static void bi_uncaught_child(void* arg) {
+  in_child = 1;
+  dup2(child_wfd, 2); close(child_wfd);
+  EXC = current(Exception);
+  if (bi_y < 0) { throw(BK[bi_x], "builtin kind %$ thrown with no try block open", BK[bi_x]); }
+  else { try { throw(BK[bi_x], "builtin kind %$ thrown past a filter", BK[bi_x]); } catch (e_ in BK[bi_y]) { BO.h[1] = bk_index(e_); } }
+  BO.finished = 1;
+}
+
+static uint64_t bi_programs;
+#define BI_COUNT() do { bi_programs++; vf.states++; vf.transitions++; vf.executions++; vf.nontrivial++; } while (0)
+
+static void bi_name(int i) {
+  vf_set_cur("builtin:name:%d", i);
+  vf.evaluations++;
+  const char* nm = c_str(BK[i]);
+  char label[160];
+  if (strcmp(nm, BKN[i]) != 0) {
+    snprintf(label, sizeof label, "exc/builtin/%s/name-differs-from-identifier", BKN[i]);
+    vf_violation(label, NULL, "c_str(%s) is \"%s\": the kind carries another kind's name, and catch filters match type objects by name", BKN[i], nm);
+  }
+  for (int j = 0; j < i; j++) if (BK[j] == BK[i]) {
+    snprintf(label, sizeof label, "exc/builtin/%s/same-object-as-another-kind", BKN[i]);
+    vf_violation(label, NULL, "%s and %s are the same object", BKN[i], BKN[j]);
+  }
+  if (vf.replay) printf("c_str(%s) = \"%s\"\n", BKN[i], nm);
+}
+
+static void bi_do_pair(int x, int y) {
+  char label[200];
+  vf_set_cur("builtin:pair:%d,%d", x, y);
+  bi_clear();
+  bi_pair(BK[x], BK[y]);
+  BI_COUNT();
+  const char* sym = NULL;
+  int eh1 = x == y ? x : -1, eh0 = x == y ? -1 : x;
+  if (!BO.finished) sym = "did-not-finish";
+  else if (BO.h[1] != eh1 && eh1 < 0) sym = "non-matching-handler-ran";
+  else if (BO.h[1] != eh1 && BO.h[1] == -1) sym = "matching-handler-skipped";
+  else if (BO.h[1] != eh1) sym = "handler-bound-wrong-object";
+  else if (BO.h[0] != eh0 && eh0 < 0) sym = "handler-ran-without-raise";
+  else if (BO.h[0] != eh0 && BO.h[0] == -1) sym = "raised-exception-lost";
+  else if (BO.h[0] != eh0) sym = "propagated-wrong-object";
+  else if (BO.mark[1] != (x == y)) sym = "wrong-continuation-after-inner-construct";
+  else if (BO.body_depth != 2 || BO.end_depth != 0 || (x == y && BO.hd[1] != 1) || (x != y && BO.hd[0] != 0)) sym = "nesting-depth-mismatch";
+  if (vf.replay) printf("try { try { throw %s } catch (e in %s) { inner } } catch (e) { outer }: inner bound %s, outer bound %s, continued after inner construct=%d, depths body=%d end=%d\n",
+    BKN[x], BKN[y], bk_name(BO.h[1]), bk_name(BO.h[0]), BO.mark[1], BO.body_depth, BO.end_depth);
+  if (sym) {
+    snprintf(label, sizeof label, "exc/builtin/throw=%s/filter=%s/%s", BKN[x], BKN[y], sym);
+    vf_violation(label, NULL, "try { try { throw(%s) } catch (e in %s) { inner } } catch (e) { outer }: expected %s; observed inner handler bound %s, outer handler bound %s (names: \"%s\" / \"%s\")",
+      BKN[x], BKN[y], x == y ? "the inner handler bound to the thrown kind" : "only the outer handler, bound to the thrown kind", bk_name(BO.h[1]), bk_name(BO.h[0]), c_str(BK[x]), c_str(BK[y]));
+  } else if (vf_want_sample()) vf_sample("builtin pair throw=%s filter=%s -> %s handler bound %s", BKN[x], BKN[y], x == y ? "inner" : "outer", BKN[x]);
+}
+
+static void bi_do_route(int x, int k0, int k1, int k2) {
+  char label[200];
+  int ks[4] = { -9, k0, k1, k2 };          /* by h[] index */
+  vf_set_cur("builtin:route:%d,%d,%d,%d", x, k0, k1, k2);
+  bi_clear();
+  bi_route(BK[x], BK[k0], BK[k1], BK[k2]);
+  BI_COUNT();
+  int target = x == k2 ? 3 : x == k1 ? 2 : x == k0 ? 1 : 0;      /* innermost first */
+  const char* sym = NULL;
+  if (!BO.finished) sym = "did-not-finish";
+  for (int i = 3; i >= 0 && !sym; i--) {
+    int eh = i == target ? x : -1;
+    if (BO.h[i] != eh) sym = eh < 0 ? (i > target ? "non-matching-handler-ran" : "handler-ran-after-the-exception-was-handled") : BO.h[i] == -1 ? "matching-handler-bypassed" : "handler-bound-wrong-object";
+    else if (i == target && BO.hd[i] != (i == 0 ? 0 : i)) sym = "nesting-depth-mismatch";
+  }
+  for (int i = 1; i <= 3 && !sym; i++) if (BO.mark[i] != (i <= target && target != 0 ? 1 : 0)) sym = "wrong-continuation-after-construct";
+  if (!sym && (BO.body_depth != 4 || BO.end_depth != 0)) sym = "nesting-depth-mismatch";
+  if (vf.replay) printf("levels 0/1/2 list %s/%s/%s, throw %s: handlers sentinel=%s L0=%s L1=%s L2=%s marks=%d%d%d depths body=%d end=%d\n", BKN[k0], BKN[k1], BKN[k2], BKN[x],
+    bk_name(BO.h[0]), bk_name(BO.h[1]), bk_name(BO.h[2]), bk_name(BO.h[3]), BO.mark[1], BO.mark[2], BO.mark[3], BO.body_depth, BO.end_depth);
+  if (sym) {
+    int wrong = -1; for (int i = 3; i >= 1; i--) if (BO.h[i] != -1 && i != target) { wrong = i; break; }
+    snprintf(label, sizeof label, "exc/builtin/route/throw=%s/%s%s%s", BKN[x], sym, wrong > 0 ? "/at-filter=" : "", wrong > 0 ? BKN[ks[wrong]] : "");
+    vf_violation(label, NULL, "three nested try blocks listing %s (outermost), %s, %s (innermost) inside a catch-all; throw(%s): expected only %s to run, bound to %s; observed sentinel=%s L0=%s L1=%s L2=%s",
+      BKN[k0], BKN[k1], BKN[k2], BKN[x], target == 0 ? "the catch-all" : target == 1 ? "level 0" : target == 2 ? "level 1" : "level 2", BKN[x],
+      bk_name(BO.h[0]), bk_name(BO.h[1]), bk_name(BO.h[2]), bk_name(BO.h[3]));
+  }
+}
+
+static void bi_do_uncaught(int x, int y) {
+  char label[200];
+  vf_set_cur("builtin:uncaught:%d,%d", x, y);
+  int pfd[2];
+  if (pipe(pfd) != 0) { vf_note("pipe() failed"); vf.exhaustive = 0; return; }
+  child_wfd = pfd[1]; bi_x = x; bi_y = y;
+  bi_clear();
+  struct vf_child r = vf_fork_run(bi_uncaught_child, NULL, 20);
+  close(pfd[1]);
+  char buf[1024]; size_t got = 0;
+  for (;;) { ssize_t k = read(pfd[0], buf + got, sizeof buf - 1 - got); if (k <= 0) break; got += (size_t)k; if (got >= sizeof buf - 1) break; }
+  close(pfd[0]); buf[got] = 0;
+  BI_COUNT();
+  char tok[64]; tok[0] = 0;
+  char* u = strstr(buf, "Uncaught ");
+  if (u) { size_t tl = 0; for (const char* c = u + 9; *c && *c != '\n' && *c != ' ' && *c != '\t' && tl < sizeof tok - 1; c++) tok[tl++] = *c; tok[tl] = 0; }
+  for (char* c = buf; *c; c++) if (*c == '\n' || *c == '\t') *c = ' ';
+  const char* sym = NULL;
+  if (r.timed_out) sym = "hang";
+  else if (r.signaled) sym = "crashed";
+  else if (BO.h[1] != -1) sym = "non-matching-handler-ran";
+  else if (BO.finished) sym = "raised-exception-lost";
+  else if (r.status == 0) sym = "uncaught/exit-status-zero";
+  else if (!u) sym = "uncaught/no-diagnostic";
+  else if (strcmp(tok, BKN[x]) != 0) sym = "uncaught/diagnostic-names-another-kind";
+  if (vf.replay) printf("throw %s %s%s: exit status %d, handler bound %s, stderr: %.200s\n", BKN[x], y < 0 ? "with no try block" : "past a filter listing ", y < 0 ? "" : BKN[y], r.status, bk_name(BO.h[1]), buf);
+  if (sym) {
+    snprintf(label, sizeof label, "exc/builtin/throw=%s/%s%s/%s", BKN[x], y < 0 ? "no-try" : "filter=", y < 0 ? "" : BKN[y], sym);
+    vf_violation(label, NULL, "forked child: throw(%s) %s%s: expected termination with failure status and 'Uncaught %s'; observed exit=%d status=%d signal=%d, handler bound %s, stderr: %.200s",
+      BKN[x], y < 0 ? "with no try block open" : "inside try { } catch (e in ", y < 0 ? "" : BKN[y], BKN[x], r.exited, r.status, r.sig, bk_name(BO.h[1]), buf);
+  }
+}
+
+/* the kinds of the header this build was made from: the list above must be the header's list */
+static void bi_check_header(void) {
+  const char* rd = getenv("VERIF_REPO_DIR");
+  char path[512]; snprintf(path, sizeof path, "%s/include/Cello.h", rd ? rd : "/repo");
+  FILE* f = fopen(path, "r");
+  if (!f) { vf_note("cannot read %s: the list of built-in kinds was not compared with the header", path); return; }
+  char line[512]; int inhdr = 0, missing = 0;
+  while (fgets(line, sizeof line, f)) {
+    char id[128];
+    if (sscanf(line, "extern var %127[A-Za-z0-9_];", id) == 1) {
+      size_t n = strlen(id);
+      if (n > 5 && strcmp(id + n - 5, "Error") == 0) {
+        inhdr++;
+        int known = 0; for (int i = 0; i < NBK; i++) if (strcmp(BKN[i], id) == 0) known = 1;
+        if (!known) { missing++; vf_note("Cello.h declares the exception kind %s which this harness does not cover", id); }
+      }
+    }
+  }
+  fclose(f);
+  if (missing) vf.exhaustive = 0;
+  vf_extra("builtin_kinds_in_header", "%d", inhdr);
+}
+
+static void builtin_all(void) {
+  bi_check_header();
+  for (int i = 0; i < NBK; i++) bi_name(i);
+  for (int x = 0; x < NBK; x++) for (int y = 0; y < NBK; y++) bi_do_pair(x, y);
+  uint64_t p0 = bi_programs;
+  vf_watchdog(120);
+  for (int k0 = 0; k0 < NBK; k0++) for (int k1 = 0; k1 < NBK; k1++) for (int k2 = 0; k2 < NBK; k2++) {
+    if (k0 == k1 || k0 == k2 || k1 == k2) continue;
+    for (int x = 0; x < NBK; x++) bi_do_route(x, k0, k1, k2);
+  }
+  vf_extra("builtin_routing_programs", "%" PRIu64, bi_programs - p0);
+  p0 = bi_programs;
+  if (vf_param_i("fork", 1)) {
+    for (int x = 0; x < NBK; x++) { vf_watchdog(120); for (int y = -1; y < NBK; y++) if (y != x) bi_do_uncaught(x, y); }
+  }
+  vf_extra("builtin_uncaught_forks", "%" PRIu64, bi_programs - p0);
+  vf_extra("builtin_kinds", "%d", (int)NBK);
+  vf.max_depth = 4;
+  vf_watchdog(0);
+}
+
+static int builtin_replay(const char* c) {
+  int a, b, d, e;
+  if (sscanf(c, "builtin:name:%d", &a) == 1 && a >= 0 && a < NBK) { bi_name(a); return 1; }
+  if (sscanf(c, "builtin:pair:%d,%d", &a, &b) == 2 && a >= 0 && a < NBK && b >= 0 && b < NBK) { bi_do_pair(a, b); return 1; }
+  if (sscanf(c, "builtin:route:%d,%d,%d,%d", &a, &b, &d, &e) == 4 && a >= 0 && a < NBK && b >= 0 && b < NBK && d >= 0 && d < NBK && e >= 0 && e < NBK) { bi_do_route(a, b, d, e); return 1; }
+  if (sscanf(c, "builtin:uncaught:%d,%d", &a, &b) == 2 && a >= 0 && a < NBK && b >= -1 && b < NBK) { bi_do_uncaught(a, b); return 1; }
+  return 0;
+}
+
 /* ---- replay --------------------------------------------------------------------------- */
 
 static void show_both(void) {
@@ -1155,6 +1389,11 @@ static void show_both(void) {
 }
 
 static void do_replay(const char* c) {
+  if (strncmp(c, "builtin:", 8) == 0) {
+    if (!builtin_replay(c)) { fprintf(stderr, "replay: bad builtin case '%s'\n", c); exit(2); }
+    printf(vf.nviols ? "replay: violation\n" : "replay: as expected\n");
+    vf_finish();
+  }
   if (strncmp(c, "deep:", 5) == 0) {
     if (sscanf(c, "deep:D=%d,T1=%d,T2=%d,x=%d,tf=%d,rt=%d", &DC.D, &DC.T1, &DC.T2, &DC.x, &DC.tf, &DC.rt) != 6 ||
         DC.D < 1 || DC.D > (int)EXCEPTION_MAX_DEPTH - (msg_mode ? 2 : objs_mode >= OBJ_CMPTRY ? 1 : 0) || DC.x < 1 || DC.x > 2) { fprintf(stderr, "replay: bad deep case '%s'\n", c); exit(2); }
@@ -1216,8 +1455,10 @@ int main(int argc, char** argv) {
     vf_extra("exception_objects", "\"%s\"", om);
   }
 
+  bk_setup();
   if (vf.replay) do_replay(vf.replay);
 
+  if (vf_param_is("mode", "builtin", "enum")) { builtin_all(); vf_finish(); }
   if (vf_param_is("mode", "deep", "enum")) { deep_all(); vf_finish(); }
 
   const char* k = vf_param("kind", "chain");
